@@ -409,9 +409,8 @@ func (w *dqW) do(op, arg int) {
 		case dqShrink:
 			r.Probe("crash-shrink-negative")
 		}
-		for _, it := range w.iters {
-			it.touched = true
-		}
+		// (live iterators are not marked as disturbed: a call that fails leaves the contents
+		// unchanged, so an iterator must go on as over an unchanged deque)
 		w.check(op, true)
 		return
 	}
